@@ -1,7 +1,7 @@
 use std::fmt::Debug;
 
 use chrono::format::{Parsed, StrftimeItems, parse};
-use chrono::{DateTime, FixedOffset, Local, Offset, ParseError, TimeZone as _, Utc};
+use chrono::{DateTime, FixedOffset, Local, Offset, ParseError, Utc};
 use chrono_tz::Tz;
 use serde::{Deserialize, Serialize};
 
@@ -60,9 +60,9 @@ impl TimeZone {
 
 /// Convert a timestamp with a non-UTC time zone into UTC
 pub(super) fn datetime_to_utc<TZ: chrono::TimeZone>(ts: &DateTime<TZ>) -> DateTime<Utc> {
-    Utc.timestamp_opt(ts.timestamp(), ts.timestamp_subsec_nanos())
-        .single()
-        .expect("invalid timestamp")
+    // Same instant, leap-second representation included: rebuilding it from seconds and
+    // nanoseconds panicked for a leap second in a zone whose UTC offset has a seconds part.
+    ts.with_timezone(&Utc)
 }
 
 impl From<TimeZone> for String {
